@@ -25,6 +25,7 @@ template<class Cfg> ModelTraits backend_traits() {
 	T.serialization = Cfg::serialization;
 		T.tracked       = ET::tracked;
 		T.mpi           = Cfg::mpi;
+		T.ctor_default_inits = Cfg::default_init;
 	T.pocca         = Cfg::pocca;
 	T.pocma         = Cfg::pocma;
 	T.pocs          = Cfg::pocs;
@@ -43,11 +44,13 @@ struct SimCfg {
 	using elem  = Elem;
 	using alloc = sim::allocator<Elem, AC>;
 	template<int D> using array_t = std::conditional_t<Static, boost::multi::static_array<Elem, D, alloc>, boost::multi::array<Elem, D, alloc>>;
+	template<int D> struct array_t_lazy { using type = boost::multi::array<Elem, D, alloc>; };
 	static constexpr bool pocca = AC::pocca, pocma = AC::pocma, pocs = AC::pocs, soccc_default = AC::soccc_default, fancy = AC::fancy;
 	static constexpr int  dmin = DMin, dmax = DMax;
 	static constexpr bool static_arrays = Static;
 	static constexpr bool serialization = Ser;
 	static constexpr bool mpi = Mpi;
+	static constexpr bool default_init = AC::default_init;
 	static auto make_alloc(int arena) -> alloc { return alloc{arena}; }
 	static int  arena_of(alloc const& a) { return a.arena; }
 	static void setup() {}
